@@ -20,3 +20,11 @@ Theorem C10_ictx_values cfg s : ictx cfg s ->
   (forall k, 0 <= k < 34 -> 0 <= getl (R s) k < 2 ^ 32) /\ 0 <= cpsr_of s < 2 ^ 32 /\ length (R s) = 34%nat.
 Proof. exact (ictx_values cfg s). Qed.
 Print Assumptions C10_ictx_values.
+
+(* only N, Z, C, V can change when the destination is not the PC: CPSR<27:0> — mode, A/I/F, E, T, J, IT, GE, Q — is kept
+   (with Props/C01step.v this makes the data-processing family unable to change anything privileged, from any mode: C19) *)
+Theorem C10_dp_cpsr_low cfg opA S dest n o s s' : ictx cfg s -> 0 <= n <= 15 -> op2_valid o ->
+  match dest with Some d => 0 <= d <= 14 | None => True end ->
+  dp_sem cfg opA S dest n o s = Ok tt s' -> bits (cpsr_of s') 27 0 = bits (cpsr_of s) 27 0.
+Proof. exact (dp_sem_cpsr_low cfg opA S dest n o s s'). Qed.
+Print Assumptions C10_dp_cpsr_low.
